@@ -51,7 +51,7 @@ def schedule (crc : List Nat → Nat) (ratio : Nat) :
   | .edit e :: evs, mani, sofar =>
     if rollsOver crc ratio mani sofar e then
       (schedule crc ratio evs [maniAlgebra.rollup (replay maniAlgebra (sofar ++ [e]))] (sofar ++ [e])).map
-        (fun cs => .edit e :: .rollover :: cs)
+        (fun cs => .editRoll e :: cs)
     else (schedule crc ratio evs (mani ++ [e]) (sofar ++ [e])).map (fun cs => .edit e :: cs)
   | .rollover :: evs, mani, sofar =>
     if mani.isEmpty then none
